@@ -18,9 +18,6 @@ Record case_t := Case {
   c_dims : list (nat * nat);
   c_vars : list ivar;
   c_dfs : list (nat * fdesc);
-  c_fill : option Q;   (* Some v: the call went through core/_functions.reduce_dim / convolve_dim, whose copy of the
-                          variables LACKING the dimension (Pseudo2NetCDF.addVariableData) stores masked cells
-                          filled with the fill value v and unmasked *)
   c_obs : obs
 }.
 
@@ -43,18 +40,10 @@ Fixpoint vars_match (vs : list var) (os : list (list nat * list cell)) : bool :=
   | _, _ => false
   end.
 
-Definition fill_var (c : case_t) (v : var) : var :=
-  match c_fill c, named_axes (c_dfs c) v with
-  | Some x, [] => Var (vname v) (vdims v)
-                      (FA (sh (vdat v)) (fun i => match at_ (vdat v) i with None => Some x | y => y end))
-  | _, _ => v
-  end.
-Definition has_masked (v : var) : bool := existsb (fun x => negb (is_some x)) (to_flat (vdat v)).
-
 Definition checkF (c : case_t) : bool :=
   match impl_apply (to_file c) (c_dfs c), c_obs c with
   | Err e, ORaise e' => err_eqb e e'
-  | Ok r, OFile ds os => list_eqb pair_eqb (fdims r) ds && vars_match (map (fill_var c) (fvars r)) os
+  | Ok r, OFile ds os => list_eqb pair_eqb (fdims r) ds && vars_match (fvars r) os
   | _, _ => false
   end.
 
@@ -89,12 +78,7 @@ Definition checkS (c : case_t) : bool :=
       else true
   end.
 
-(* region 1: string form (reduce_dim / convolve_dim) and a variable lacking the dimension has a masked cell *)
-Definition region (c : case_t) : nat :=
-  match c_fill c with
-  | Some _ => if existsb (fun v => match named_axes (c_dfs c) v with [] => has_masked v | _ => false end)
-                         (fvars (to_file c)) then 1 else 0
-  | None => 0
-  end.
+(* no known-defect region is left after the repairs *)
+Definition region (c : case_t) : nat := 0.
 
 Definition check (c : case_t) : verdict := (checkF c, checkS c, region c).
